@@ -360,6 +360,10 @@ def _check_onelabel(ctx, repo) -> None:
         elif isinstance(labels, ast.Call) and call_name(labels) in ("np.asarray", "np.array", "np.ascontiguousarray") \
                 and labels.args:
             labels = _inline(df, lnode.idx, labels.args[0])
+        elif isinstance(labels, ast.Call) and (call_name(labels) or "").split(".")[-1] in ("minimum", "clip", "fmin") \
+                and labels.args:
+            # clamping to the last slice keeps one label per atom (labels above the last edge -> last slice)
+            labels = _inline(df, lnode.idx, labels.args[0])
     ctx.check(labels is dg, rule, construct + ":labels", init.loc(lt),
               "label_to_index receives the digitize result itself",
               f"label_to_index is applied to {norm_text(lb.get('labels')) if lb.get('labels') is not None else '?'}, "
@@ -600,3 +604,96 @@ def run(ctx) -> None:  # noqa: F811
             ctx.ok("R-ACCUMULATE", f"{f.qualname}:bincount", f.loc(st), "accumulating bincount")
     ctx.require(sinks >= 1, "superpose_deltas: no write into the output array recognised")
     _inner_run_c09(ctx)
+
+
+# ---- added after the seeded change C09-r3seed1: the two tolerances of the slice assignment agree
+_inner_run_c09b = run
+
+
+def run(ctx) -> None:  # noqa: F811
+    import ast as _ast
+
+    from ..model import AnalysisError as _AE, dotted as _dotted, fold_constant as _fold, norm_text as _nt, \
+        walk_no_nested as _walk
+
+    ctx.rule("R-TOLERANCES", "writer/reader agreement of two tolerances: SliceIndexedAtoms nudges its bin edges down by a "
+             "tolerance t so that an atom exactly on an edge goes to the upper slice, and _FieldBuilderFromAtoms."
+             "_prepare_atoms snaps atoms within s of the cell top back to z = 0 because those would fall above the last "
+             "(nudged) edge.  Every atom is assigned to exactly one slice only if the nudge is a constant that does not "
+             "exceed the snap (t <= s): a nudge that grows with the edge index exceeds s for enough slices, and atoms "
+             "between cell_z - t_n and cell_z - s are then neither snapped nor binned — they vanish from the potential")
+    repo = ctx.repo
+    init = repo.method("abtem.slicing", "SliceIndexedAtoms", "__init__")
+    nudges = [st for st in _walk(init.node) if isinstance(st, _ast.AugAssign) and isinstance(st.op, (_ast.Sub, _ast.Add))
+              and "edge" in (_dotted(st.target) or "")]
+    ctx.require(len(nudges) == 1, f"{init.qualname}: expected one in-place nudge of the bin edges, found {len(nudges)}")
+    prep = repo.method("abtem.potentials.iam", "_FieldBuilderFromAtoms", "_prepare_atoms")
+    snaps = []
+    for c in _walk(prep.node):
+        if isinstance(c, _ast.Compare) and len(c.ops) == 1 and isinstance(c.ops[0], (_ast.Gt, _ast.GtE)) and \
+                isinstance(c.comparators[0], _ast.BinOp) and isinstance(c.comparators[0].op, _ast.Sub) and \
+                "cell_z" in _nt(c.comparators[0].left):
+            snaps.append(c)
+    ctx.require(len(snaps) == 1, f"{prep.qualname}: the snap `z > cell_z - s` was not found")
+    try:
+        s_val = float(_fold(snaps[0].comparators[0].right, {}))
+    except Exception as e:  # noqa: BLE001
+        raise _AE(f"{prep.qualname}: snap tolerance `{_nt(snaps[0].comparators[0].right)}` is not a constant") from e
+    try:
+        t_val = float(_fold(nudges[0].value, {}))
+        if isinstance(nudges[0].op, _ast.Add):
+            t_val = -t_val
+    except Exception:  # noqa: BLE001
+        t_val = None
+    ctx.check(t_val is not None and 0 <= t_val <= s_val, "R-TOLERANCES", f"{init.qualname}:nudge <= snap", init.loc(nudges[0]),
+              f"edges nudged down by the constant {t_val} <= snap {s_val}",
+              (f"the bin edges are nudged by `{_nt(nudges[0].value)[:60]}`, which is not a constant: it grows with the "
+               f"number of slices and exceeds the snap tolerance {s_val} of _prepare_atoms, so atoms just below the cell "
+               "top are neither wrapped to z = 0 nor inside any bin") if t_val is None else
+              f"the nudge {t_val} is larger than the snap tolerance {s_val} (or negative): atoms between the two are lost",
+              key_detail="tolerances")
+    _inner_run_c09b(ctx)
+
+
+# ---- added: atoms above the last bin edge (found on the tree: thickness sum short of the cell height)
+_inner_run_c09c = run
+
+
+def run(ctx) -> None:  # noqa: F811
+    import ast as _ast
+
+    from ..cfg import DataFlow as _DF
+    from ..model import call_name as _cn, dotted as _dotted, norm_text as _nt, walk_no_nested as _walk
+
+    ctx.rule("R-COVERTOP", "_validate_slice_thickness accepts a thickness sequence whose sum equals the cell height only "
+             "up to np.isclose; SliceIndexedAtoms bins z with np.digitize over the cumulative thicknesses and builds its "
+             "index table for labels 0 .. n-1.  An atom with z at or above the last edge gets label n: unless the labels "
+             "are clamped to the last slice (np.minimum / clip) or the last edge is replaced by the cell height / +inf, "
+             "such an atom belongs to no slice and is missing from the potential")
+    repo = ctx.repo
+    init = repo.method("abtem.slicing", "SliceIndexedAtoms", "__init__")
+    df = _DF(init.node)
+    dig = [c for c in _walk(init.node) if isinstance(c, _ast.Call) and (_cn(c) or "").split(".")[-1] == "digitize"]
+    ctx.require(len(dig) == 1, f"{init.qualname}: expected one np.digitize")
+    st = next(s_ for s_ in _walk(init.node) if isinstance(s_, _ast.stmt) and any(x is dig[0] for x in _ast.walk(s_))
+              and not isinstance(s_, (_ast.If, _ast.For, _ast.With, _ast.Try, _ast.FunctionDef)))
+    # (a) clamped labels: the digitize result passes through minimum/clip before label_to_index
+    users = [c for c in _walk(init.node) if isinstance(c, _ast.Call) and (_cn(c) or "").split(".")[-1] == "label_to_index"]
+    ctx.require(len(users) == 1 and users[0].args, f"{init.qualname}: label_to_index call not found")
+    ust = next(s_ for s_ in _walk(init.node) if isinstance(s_, _ast.stmt) and any(x is users[0] for x in _ast.walk(s_))
+               and not isinstance(s_, (_ast.If, _ast.For, _ast.With, _ast.Try, _ast.FunctionDef)))
+    sl = df.backward_slice(df.cfg.node_of(ust).idx, users[0].args[0])
+    chain = [df.cfg.nodes[n_].ast for n_ in sl.def_nodes if df.cfg.nodes[n_].ast is not None] + [ust]
+    clamped = any(isinstance(c, _ast.Call) and (_cn(c) or "").split(".")[-1] in ("minimum", "clip", "fmin")
+                  for s_ in chain for c in _ast.walk(s_))
+    # (b) last edge opened: bin_edges[-1] = <cell height / inf>
+    opened = any(isinstance(s_, _ast.Assign) and isinstance(s_.targets[0], _ast.Subscript) and
+                 _nt(s_.targets[0].slice) == "-1" and "edge" in (_dotted(s_.targets[0].value) or "")
+                 for s_ in _walk(init.node))
+    ctx.check(clamped or opened, "R-COVERTOP", f"{init.qualname}:atoms above the last edge", init.loc(dig[0]),
+              "labels are clamped to the last slice" if clamped else "the last edge is opened",
+              f"`{_nt(st)[:70]}` labels atoms at or above the last cumulative thickness with n, and the index table only "
+              "keeps labels 0..n-1: with a thickness sequence that sums to the cell height only within the np.isclose "
+              "tolerance of _validate_slice_thickness, an atom in the gap below the cell top is in no slice",
+              key_detail="covertop")
+    _inner_run_c09c(ctx)
